@@ -33,7 +33,6 @@ FACTORS = [
     ("r", [False, True]),
     ("c", [False, True]),
     ("m", [False, True]),
-    ("j", [None, "1", "2", "3", "4", "8"]),
     ("S", ["a", "r", "l", "u", "d", "i", "o", "R", "I"]),
     ("D", ["n", "r", "i", "b"]),
     ("O", [None, "c", "b", "g", "gf", "v", "f"]),
@@ -201,7 +200,7 @@ def std_cases(rng, count, maxdeg):
 
 
 # ----------------------------------------------------------------------------- running
-RSS_CAP_KB = 1500000     # memory budget per solve (resident set, ASan overhead included): 1.5 GB
+RSS_CAP_KB = 1200000     # memory budget per solve (resident set, ASan overhead included): 1.2 GB
 
 
 def _rss_kb(pid):
@@ -214,26 +213,45 @@ def _rss_kb(pid):
     return 0
 
 
-def run_one(binary, path, opts, env, timeout):
-    """run one solve under the wall-clock cap and the memory cap; exceeding either one is reported as `timeout`
-    (resource budget exceeded), with r['mem'] telling which"""
+def run_one(binary, path, opts, env, cpu_cap, wall_cap=None):
+    """Run one solve.  Budgets: CPU time of the process (user+sys; with -j 1 this is the solve's own work and does not
+    depend on what else the machine is doing), resident memory, and a wall-clock backstop (deadlocks).  Exceeding one
+    of them sets r['timeout'] (resource budget exceeded); r['why'] tells which."""
     import tempfile
     t0 = time.time()
+    if wall_cap is None: wall_cap = 8 * cpu_cap + 30
     cmd = [binary, path] + list(opts)
-    r = {"rc": None, "out": "", "err": "", "wall": 0.0, "timeout": False, "mem": False}
+    r = {"rc": None, "out": "", "err": "", "wall": 0.0, "cpu": 0.0, "timeout": False, "mem": False, "why": ""}
+    tck = os.sysconf("SC_CLK_TCK")
+    def cpu_of(pid):
+        try:
+            with open("/proc/%d/stat" % pid) as f: t = f.read().rsplit(")", 1)[1].split()
+            return (int(t[11]) + int(t[12])) / tck
+        except Exception:
+            return 0.0
     with tempfile.TemporaryFile() as fo, tempfile.TemporaryFile() as fe:
         p = subprocess.Popen(cmd, stdout=fo, stderr=fe, env=env)
         while True:
             try:
-                p.wait(timeout=0.25); break
-            except subprocess.TimeoutExpired:
-                pass
-            if time.time() - t0 > timeout:
-                r["timeout"] = True
-            elif _rss_kb(p.pid) > RSS_CAP_KB:
-                r["timeout"] = True; r["mem"] = True
+                pid, status, ru = os.wait4(p.pid, os.WNOHANG)
+            except ChildProcessError:
+                pid, status, ru = p.pid, 0, None
+            if pid != 0:
+                p.returncode = os.waitstatus_to_exitcode(status)
+                if ru is not None: r["cpu"] = ru.ru_utime + ru.ru_stime
+                break
+            cpu = cpu_of(p.pid)
+            if cpu > cpu_cap: r["timeout"] = True; r["why"] = "cpu"
+            elif _rss_kb(p.pid) > RSS_CAP_KB: r["timeout"] = True; r["mem"] = True; r["why"] = "memory"
+            elif time.time() - t0 > wall_cap: r["timeout"] = True; r["why"] = "wall"
             if r["timeout"]:
-                p.kill(); p.wait(); break
+                r["cpu"] = cpu
+                p.kill()
+                try: os.wait4(p.pid, 0)
+                except ChildProcessError: pass
+                p.returncode = -9
+                break
+            time.sleep(0.05)
         fo.seek(0); fe.seek(0)
         r["out"] = fo.read().decode("utf-8", "replace"); r["err"] = fe.read().decode("utf-8", "replace")[-6000:]
         if not r["timeout"]: r["rc"] = p.returncode
@@ -328,20 +346,41 @@ def deg_bucket(n):
     return "<=8" if n <= 8 else "<=20" if n <= 20 else "<=64" if n <= 64 else ">64"
 
 
-TRACE_TAGS = {"uphase-f": "Pf", "uphase-d": "Pd", "uphase-m": "Pm", "umpwp": "W", "mpack": "Km", "pack": "K",
-              "fsolve": "Sf", "dsolve": "Sd", "msolve": "Sm", "improve": "I", "ferr": "Ef", "derr": "Ed",
-              "sga-f": "Gf", "sga-d": "Gd", "sga-m": "Gm", "sga-raise": "R", "sga-switch": "X", "sga-stop": "Z",
-              "uovermax": "Uo", "uinputprec": "Ui"}
+GOALN = {"i": "0", "a": "1", "c": "2"}
 
 
 def trace_line(job):
-    """one line for the extracted skeleton acceptor: 'U|S max_pack max_it mpwp_max n prec ; tokens...'"""
+    """one line for bin/total (extracted acceptors check_u / check_s):
+    'U|S max_pack max_it mpwp_max goal in_prec ferr finc avoid ; tokens'   (see ocaml/total_driver.ml)"""
     out = job["r"]["out"]
     ev = re.findall(r"^EV (\S+) (-?\d+)$", out, re.M)
     me = re.search(r"^EVEND max_pack=(\d+) max_it=(\d+) mpwp_max=(\d+)", out, re.M)
-    if not me: return None
-    toks = ["%s:%s" % (TRACE_TAGS[t], v) for t, v in ev if t in TRACE_TAGS]
-    return "%s %s %s %s ; %s" % ("U" if job["row"]["a"] == "u" else "S", me.group(1), me.group(2), me.group(3), " ".join(toks))
+    mp = re.search(r"^POLY .* prec=(-?\d+)", out, re.M)
+    if not me or not mp: return None
+    classic = job["row"]["a"] == "u"
+    toks = []
+    if classic:
+        m = {"uphase-f": "Pf", "uphase-d": "Pd", "uphase-m": "Pm", "pack": "K", "uovermax": "NC", "uinputprec": "NC"}
+        for t, v in ev:
+            if t in m: toks.append(m[t])
+            elif t == "umpwp": toks.append("W:" + v)
+            elif t == "improve": toks.append("I:" + v)
+    else:
+        prev = None
+        for t, v in ev:
+            if t in ("sga-f", "sga-d", "sga-m"):
+                if not (t == "sga-d" and prev == "sga-f"): toks.append("IT")     # float packet that fell through to DPE: one iteration
+            elif t == "sga-switch": toks.append("R")
+            elif t == "sga-raise":
+                if prev != "sga-switch": toks.append("R")                         # switch_phase raises the precision itself
+            elif t == "improve": toks.append("I:" + v)
+            elif t == "sga-stop": continue
+            else: continue
+            prev = t
+    ferr = job["klass"] == "solve-err"
+    finc = ferr and "inclusion disks" in job["detail"]
+    return "%s %s %s %s %s %s %d %d %d ; %s" % ("U" if classic else "S", me.group(1), me.group(2), me.group(3), GOALN[job["row"]["G"]],
+                                               max(0, int(mp.group(1))), ferr, finc, 1 if job["row"].get("m") else 0, " ".join(toks))
 
 
 def run(ctx):
@@ -350,7 +389,6 @@ def run(ctx):
     binary = ctx.compile_harness(["vf_solve.c"], "vf_solve", mode="san")
     env = ctx.san_env()
     thorough = not ctx.quick()
-    HARD = ctx.pick(60, 900)
     FLOOR = 20.0
     rng = ctx.rng
     workdir = os.path.join(ctx.scratch, "jobs"); os.makedirs(workdir, exist_ok=True)
@@ -420,41 +458,66 @@ def run(ctx):
         for sset in ("r", "u", "i", "R", "I"):
             for a in ("u", "s"):
                 add(onb[0], dict(base, a=a, S=sset), "on-boundary")
-    # trace subset: small inputs, no jacobi (-b) packets are traced too
+    # every solve of the main sweep runs with ONE worker thread: reproducible runs (the thread pool's scheduling
+    # is what made sanitizer reports come and go); threads are exercised by the separate group below
     for j in jobs:
-        j["trace"] = (j["case"]["eff_degree"] or 0) <= 12 and rng.random() < ctx.pick(0.35, 0.25) and j["why"] != "replay"
-        if j["trace"]: j["opts"] = j["opts"] + ["-T"]
-    ctx.log("jobs: %d (pairwise rows: %s)" % (len(jobs), "replay" if ctx.replay else len(rows)))
+        if j["why"] != "replay":
+            j["row"]["j"] = "1"; j["opts"] = opts_of(j["row"])
+    # trace subset (tie): small inputs; traced solves get small caps (-P 300, -W 16384) so that the acceptor, which
+    # counts in unary, can evaluate the proved bound
+    for j in jobs:
+        j["trace"] = (j["case"]["eff_degree"] or 0) <= 12 and rng.random() < ctx.pick(0.4, 0.3) and j["why"] != "replay"
+        if j["trace"]:
+            if j["row"].get("P") is None: j["row"]["P"] = 300
+            j["opts"] = opts_of(j["row"]) + ["-W", "16384", "-T"]
+    # multi-threaded group: fixed configurations with -j 2..8; verdict = did the run fail or not, keyed by input class
+    # and options (never by the sanitizer's report site, which depends on the interleaving)
+    mt_jobs = []
+    if not ctx.replay:
+        mtc = [dict(base, a="u", G="i", j="2"), dict(base, a="s", G="i", j="4"), dict(base, a="u", G="a", o="30", j="8"),
+               dict(base, a="s", G="a", o="30", j="3"), dict(base, a="s", G="i", b=True, j="2"), dict(base, a="u", G="i", t="d", j="4"),
+               dict(base, a="s", G="c", j="8"), dict(base, a="u", G="a", o="100", j="3")]
+        mtin = [x for x in specials if x["name"] in ("deg1-int", "huge-int-lead", "xpow7", "zerotrail", "mult-3-2", "mult-2-2-2", "sec-fp", "cheb-deg1")]
+        mtin += gauss[:4] + [c for c in std if c["cls"] in ("random-integer", "clustered-2^-16", "wilkinson", "secular", "sparse", "kac")][:8]
+        for i, c in enumerate(mtin):
+            for k in range(2):
+                row = dict(mtc[(i + 3 * k) % len(mtc)])
+                mt_jobs.append({"case": c, "row": row, "opts": opts_of(row), "why": "multithreaded", "excluded": False, "trace": False, "mt": True})
+    elif json.load(open(ctx.replay)).get("mt"):
+        jobs[0]["mt"] = True; mt_jobs = jobs; jobs = []
+    ctx.log("jobs: %d single-threaded + %d multi-threaded (pairwise rows: %s)" % (len(jobs), len(mt_jobs), "replay" if ctx.replay else len(rows)))
 
-    T1 = ctx.pick(20, 60)
-    def go(ij, to=None):
+    T1 = ctx.pick(20, 60)        # CPU seconds, first pass
+    HARD = ctx.pick(45, 900)     # CPU seconds, the budget that decides
+    alljobs = jobs + mt_jobs
+    def go(ij, cap=None, wall=None):
         i, j = ij
         path = os.path.join(workdir, "job%d.pol" % i)
         with open(path, "w") as f: f.write(j["case"]["text"])
-        j["r"] = run_one(binary, path, j["opts"], env, to if to else T1)
+        j["r"] = run_one(binary, path, j["opts"], env, cap if cap else T1, wall)
         try: os.remove(path)
         except OSError: pass
         return None
     import concurrent.futures
     with concurrent.futures.ThreadPoolExecutor(max_workers=16) as ex:
-        list(ex.map(go, list(enumerate(jobs))))
-    ctx.log("stage 1 done (%d solves, per-solve cap %d s)" % (len(jobs), T1))
-    # stage 2: whatever did not end within T1 runs again with the hard cap, few at a time (little contention).
-    # At most two representatives per (input class, polynomial kind, algorithm, goal) group are re-run; the
-    # other members of a group share the representatives' verdict.
-    late = [(i, j) for i, j in enumerate(jobs) if j["r"]["timeout"] and not j["excluded"]]
-    rerun = [ij for ij in late if not ij[1]["r"]["mem"]]
+        list(ex.map(go, list(enumerate(alljobs))))
+    ctx.log("first pass done (%d solves, cap %d CPU-s each)" % (len(alljobs), T1))
+    # second pass: what exceeded the first-pass CPU or wall budget is re-run ALONE, one after the other, with the hard
+    # cap; only a run that exceeds the hard cap alone is a violation.  (A run stopped by the memory cap is final: memory
+    # does not depend on the load.)  One representative per signature group is re-run, the other members of a group
+    # share its verdict -- they differ in switches that do not matter for termination.
+    late = [(i, j) for i, j in enumerate(alljobs) if j["r"]["timeout"] and not j["excluded"] and not j["r"]["mem"]]
     groups = collections.defaultdict(list)
-    for i, j in rerun: groups[tgroup(j)].append((i, j))
-    reps = [ij for g in sorted(groups) for ij in groups[g][:2]]
-    with concurrent.futures.ThreadPoolExecutor(max_workers=8) as ex:
-        list(ex.map(lambda ij: go(ij, HARD), reps))
+    for i, j in late: groups[tgroup(j)].append((i, j))
+    reps = [groups[g][0] for g in sorted(groups)]
+    for ij in reps:
+        go(ij, HARD, 6 * HARD + 60)
     for g, members in groups.items():
-        hung = any(j["r"]["timeout"] for _, j in members[:2])
-        for _, j in members[2:]:
+        rep = members[0][1]
+        for _, j in members[1:]:
             j["inherited"] = True
-            if not hung: j["r"] = dict(members[0][1]["r"])
-    ctx.log("stage 2 done (%d late, %d re-run with cap %d s)" % (len(late), len(reps), HARD))
+            if not rep["r"]["timeout"]: j["r"] = dict(rep["r"])
+    ctx.log("second pass done (%d late in %d groups, re-run alone with cap %d CPU-s)" % (len(late), len(reps), HARD))
 
     stats = collections.Counter(); hist_cls = collections.Counter(); hist_opt = collections.Counter()
     walls = collections.defaultdict(list)
@@ -463,7 +526,7 @@ def run(ctx):
         j["klass"], j["detail"] = klass, detail
         key = (j["row"]["a"], j["row"]["G"], digits_bucket(j["row"]), deg_bucket(j["case"]["eff_degree"] or 0))
         j["key"] = key
-        if klass in ("ok", "solve-err"): walls[key].append(j["r"]["wall"])
+        if klass in ("ok", "solve-err"): walls[key].append(j["r"]["cpu"])
     samples = []; slow = []; nontrivial = set(); errmsgs = collections.Counter()
     for j in jobs:
         klass, detail, c = j["klass"], j["detail"], j["case"]
@@ -477,7 +540,7 @@ def run(ctx):
                 stats["excluded-timeout"] += 1
             else:
                 ctx.violation("timeout-hard:" + tgroup(j),
-                              "solve of %s with %s did not end within the hard cap of %d s / exceeded the memory cap of %d MB -- hang or budget exceeded" % (c["name"], " ".join(rp["opts"]), HARD, RSS_CAP_KB // 1000), rp)
+                              "solve of %s with %s exceeded its resource budget also when run alone (%s; hard cap %d CPU-s, memory cap %d MB) -- hang or budget exceeded" % (c["name"], " ".join(rp["opts"]), j["r"].get("why", "?"), HARD, RSS_CAP_KB // 1000), rp)
             continue
         if klass in ("sanitizer", "crash", "bad-result"):
             what = {"sanitizer": "sanitizer report", "crash": "process killed / abnormal exit", "bad-result": "solve ended with neither roots for all nor an error message"}[klass]
@@ -488,12 +551,27 @@ def run(ctx):
         if klass == "solve-err": errmsgs[j["detail"][:70]] += 1
         med = statistics.median(walls[j["key"]]) if walls[j["key"]] else 0.0
         budget = max(FLOOR, 30 * med)
-        if j["r"]["wall"] > budget:
+        if j["r"]["cpu"] > budget:
             stats["slow"] += 1
-            slow.append({"case": c["name"], "opts": rp["opts"], "wall": round(j["r"]["wall"], 1), "budget": round(budget, 1)})
+            slow.append({"case": c["name"], "opts": rp["opts"], "cpu_s": round(j["r"]["cpu"], 1), "budget": round(budget, 1)})
         nontrivial.add((c["name"], tuple(rp["opts"])))
         if len(samples) < 6 and (klass == "solve-err" or len(samples) < 3):
             samples.append({"case": c["name"], "cls": c["cls"], "opts": rp["opts"], "outcome": klass, "detail": detail, "wall": round(j["r"]["wall"], 3)})
+
+    # ---------------------------------------------------------------- multi-threaded group: fail / no fail per (input class, options)
+    mtstats = collections.Counter()
+    for j in mt_jobs:
+        klass, detail = classify(j, j["r"]); c = j["case"]
+        j["klass"], j["detail"] = klass, detail
+        hist_cls[c["cls"]] += 1
+        if klass in ("ok", "solve-err", "parse-err"):
+            mtstats[klass] += 1; nontrivial.add((c["name"], tuple(j["opts"]))); continue
+        mtstats["fail"] += 1
+        opts = [o for o in j["opts"] if o != "-T"]
+        ctx.violation("mt-failure:%s:%s" % (c["cls"], " ".join(opts)),
+                      "multi-threaded solve of %s [%s] with %s did not end with roots or an error message (%s %s)" % (c["name"], c["cls"], " ".join(opts), klass, detail),
+                      {"case": c["name"], "cls": c["cls"], "text": c["text"], "opts": opts, "row": j["row"], "eff_degree": c["eff_degree"], "excluded": False,
+                       "mt": True, "stderr": j["r"]["err"][-1500:]})
 
     # ---------------------------------------------------------------- tie: traces accepted by the extracted skeleton
     tlines = []; tjobs = []
@@ -501,35 +579,45 @@ def run(ctx):
         if j.get("trace") and j["klass"] in ("ok", "solve-err"):
             ln = trace_line(j)
             if ln is not None: tlines.append(ln); tjobs.append(j)
-    tstats = collections.Counter(); tmax = 0
-    if tlines and os.path.exists(os.path.join(vf.VERIF, "ocaml", "total_driver.ml")):
+    tstats = collections.Counter(); tmax = 0; tsteps = 0; closest = None
+    if tlines:
         outs = ctx.run_model_lines("total", tlines)
         for ln, j, src in zip(outs, tjobs, tlines):
             t = ln.split()
-            tstats[t[0]] += 1
-            if t[0] == "OK":
-                tmax = max(tmax, int(t[1]))
-                tstats["events"] += int(t[1])
+            kind = "classic" if j["row"]["a"] == "u" else "secular"
+            if t and t[0] == "OK":
+                tstats["accepted:" + kind] += 1
+                n, b = int(t[1]), int(t[2])
+                tmax = max(tmax, len(src.split(";")[1].split())); tsteps += n
+                if b and (closest is None or n / b > closest[0]): closest = (n / b, n, b)
+                if len(src.split(";")[1].split()) >= 4: nontrivial.add(("trace", src))
             else:
+                tstats["rejected:" + kind] += 1
                 c = j["case"]
-                ctx.violation("trace-rejected:%s:alg=%s" % (t[1] if len(t) > 1 else "?", j["row"]["a"]),
-                              "event trace of the real solver is not a run of the control skeleton within its bound (%s): %s with %s" % (ln, c["name"], " ".join(j["opts"])),
+                if tstats["rejected:" + kind] <= 8: ctx.log("trace rejected: %s | %s | %s %s" % (ln, src[:400], c["name"], " ".join(j["opts"])))
+                # correspondence: the skeleton does not describe this run (or the run left its bound).  The property's own
+                # predicate (terminates with roots or an error, no crash) held for this run, so there is no failing input here.
+                ctx.violation("correspondence:trace-rejected:%s" % kind,
+                              "event trace of the real solver is not accepted as a run of the control skeleton within its bound (%s): %s with %s; trace: %s"
+                              % (ln, c["name"], " ".join(j["opts"]), src[:300]),
                               {"case": c["name"], "cls": c["cls"], "text": c["text"], "opts": [o for o in j["opts"] if o != "-T"], "row": j["row"],
-                               "eff_degree": c["eff_degree"], "excluded": j["excluded"], "trace": src[:4000], "model": ln})
-    cov = {"evaluations": len(jobs), "distinct_nontrivial": len(nontrivial),
+                               "eff_degree": c["eff_degree"], "excluded": j["excluded"], "trace": src[:4000], "model": ln}, no_input=True)
+    cov = {"evaluations": len(alljobs), "distinct_nontrivial": len(nontrivial),
            "rule": "one evaluation = one (input, configuration) solve under ASan+UBSan; distinct+non-trivial = distinct (input, options) that ended ok or solve-err",
            "outcomes": dict(stats), "class_histogram": dict(hist_cls), "option_histogram": dict(hist_opt),
            "error_messages": dict(errmsgs.most_common(12)),
-           "budget": {"memory_cap_MB": RSS_CAP_KB // 1000, "stopped_by_memory_cap": sum(1 for j in jobs if j["r"].get("mem")), "hard_cap_s": HARD, "first_pass_cap_s": T1, "soft": "max(%g s, 30 x median wall of (alg, goal, digits, degree bucket))" % FLOOR,
+           "budget": {"unit": "CPU seconds of the solve process (single worker thread), independent of machine load; wall-clock only as a backstop (8 x cap + 30 s)", "memory_cap_MB": RSS_CAP_KB // 1000, "stopped_by_memory_cap": sum(1 for j in alljobs if j["r"].get("mem")), "hard_cap_cpu_s": HARD, "first_pass_cap_cpu_s": T1, "soft": "max(%g s, 30 x median CPU time of (alg, goal, digits, degree bucket))" % FLOOR,
                       "class_medians": {"/".join(k): round(statistics.median(v), 3) for k, v in sorted(walls.items())[:40]},
-                      "max_wall_s": round(max([j["r"]["wall"] for j in jobs] or [0]), 2), "slow": slow[:20]},
+                      "max_cpu_s": round(max([j["r"]["cpu"] for j in alljobs] or [0]), 2), "slow": slow[:20]},
            "pairwise_rows": 0 if ctx.replay else len(rows),
-           "trace_tie": {"traced_solves": len(tlines), "verdicts": dict(tstats), "longest_trace_events": tmax},
+           "trace_tie": {"traced_solves": len(tlines), "verdicts": dict(tstats), "longest_trace_events": tmax, "skeleton_steps_total": tsteps,
+                         "closest_to_bound": ({"steps": closest[1], "bound": closest[2]} if closest else None)},
+           "multithreaded_group": dict(mtstats), "programs": len(alljobs), "disagreements_checked": sum(v for k, v in tstats.items() if k.startswith("rejected")),
            "samples": samples,
            "trusted_base": ["Coq kernel (skeleton theorems: no axioms)", "the control skeletons in coq/Total are hand-written models of unisolve/main.c, unisolve/solve.c, common/improve.c, secsolve/secular-ga.c; numerics are an arbitrary oracle",
                             "memory safety / no signal: observed by ASan+UBSan (-fno-sanitize=shift-base) on the sweep only, no theorem",
                             "extraction ExtrOcamlBasic+ExtrOcamlNativeString; ocaml/total_driver.ml; harness/vf_solve.c (-T trace filtered from the library's debug log, -P sets max_pack); lib/solve.py parser"]}
-    return ctx.finish("exploration", cov,
+    return ctx.finish("proof", cov,
                       ["termination of the real numerics is observed under a wall-clock cap, not proved: the skeleton theorems bound control steps for every oracle",
                        "search sets with a root on the boundary (or unknown roots) are excluded from the termination clause",
                        "inputs that the parser rejects are C09/C10's business and only counted"])
